@@ -142,14 +142,24 @@ impl FunctionCompiler<'_> {
         Ok(match self.world_bodies[loc.file()][expr].clone() {
             hir::Expr::Missing => unreachable!(),
             hir::Expr::IntLiteral(n) => {
-                match (
-                    self.tys[loc.wrap()][expr]
-                        .get_final_ty()
-                        .into_number_type()
-                        .unwrap()
-                        .bit_width(),
-                    self.module.isa().endianness(),
-                ) {
+                let number_ty = self.tys[loc.wrap()][expr]
+                    .get_final_ty()
+                    .into_number_type()
+                    .unwrap();
+
+                // an integer literal can be used as a float (`x : f64 : 5`),
+                // in that case the bytes of the float have to be written, not the bytes of the integer
+                if number_ty.float {
+                    return Ok(match (number_ty.bit_width(), self.module.isa().endianness()) {
+                        (32, Endianness::Little) => Box::new((n as f32).to_le_bytes()),
+                        (32, Endianness::Big) => Box::new((n as f32).to_be_bytes()),
+                        (64, Endianness::Little) => Box::new((n as f64).to_le_bytes()),
+                        (64, Endianness::Big) => Box::new((n as f64).to_be_bytes()),
+                        _ => unreachable!(),
+                    });
+                }
+
+                match (number_ty.bit_width(), self.module.isa().endianness()) {
                     (8, Endianness::Little) => Box::new((n as u8).to_le_bytes()),
                     (8, Endianness::Big) => Box::new((n as u8).to_be_bytes()),
                     (16, Endianness::Little) => Box::new((n as u16).to_le_bytes()),
